@@ -32,6 +32,7 @@ import (
 	"os"
 	"path/filepath"
 	"sort"
+	"strconv"
 	"strings"
 	"sync"
 
@@ -611,7 +612,7 @@ func i38Key(k i38Case, st i38State, o i38Opt, pairing string, b i38Bad) string {
 			return "prune with a forced refspec deletes remote refs that still exist locally (client=gogit)"
 		case i38Specs[k.spec].Name == "delete" && st.hasLease && b.Kind == "forbidden-applied" && b.Why == "lease stale":
 			return "an explicit delete ignores a stale lease (client=gogit)"
-		case o.Lease == "other" && b.Kind == "forbidden-applied" && b.Ref != st.leaseRef:
+		case st.hasLease && st.leaseRef != "" && b.Ref != st.leaseRef && b.Kind == "forbidden-applied" && b.Why != "lease stale":
 			return "a lease that names another ref disables the fast-forward check (client=gogit)"
 		case k.name == 2 && o.Lease == "track" && b.Kind == "forbidden-applied" && b.Why == "lease stale":
 			return "the lease looks up the tracking ref with every refs/heads/ removed (nested branch name) (client=gogit)"
@@ -647,6 +648,9 @@ func runC38(c *fw.Ctx) {
 	for n := 1; n <= maxCommits; n++ {
 		for _, d := range fw.DAGs(n, 2, false) {
 			if only != "" && !strings.Contains(i36DagName(d, 0), only) {
+				continue
+			}
+			if os.Getenv("C38_MIN3") != "" && n < 3 { // debugging aid: only the 3+-commit DAGs
 				continue
 			}
 			dags = append(dags, d)
@@ -695,6 +699,9 @@ func runC38(c *fw.Ctx) {
 			return
 		}
 		pc := cases[ci]
+		if from, _ := strconv.Atoi(os.Getenv("C38_FROM")); ci < from { // debugging aid: resume a cut run
+			return
+		}
 		if f := os.Getenv("C38_CASE"); f != "" {
 			probe := i38Case{&i38Base{name: i36DagName(dags[pc.bi], 0)}, pc.l, pc.r, pc.name, pc.sp, pc.opt}
 			if !strings.Contains(probe.String(), f) {
